@@ -41,8 +41,9 @@ def judge_level_files(inp, files, level, group_cols, dedup_this_level, base_rows
         if ocol not in out.columns:
             bad.append(("missing_column", {"level": level, "column": ocol, "columns": list(out.columns)}))
             continue
-        a = out[ocol].astype(str).tolist()
-        b = src[icol].astype(str).tolist()
+        miss = {"nan", "None", "<NA>", "NaN", ""}
+        a = ["" if (x is None or x != x or str(x) in miss) else str(x) for x in out[ocol].tolist()]
+        b = ["" if (x is None or x != x or str(x) in miss) else str(x) for x in src[icol].tolist()]
         if a != b:
             i = next(i for i, (x, y) in enumerate(zip(a, b)) if x != y)
             bad.append(("row_fields_mixed", {"level": level, "column": ocol, "psm": ids[i], "got": a[i], "expected": b[i]}))
